@@ -550,7 +550,10 @@ impl<P: ParallelVariant> Rans64Decoder<P> {
 
         let mut state = Rans64State::from_state(initial_state);
         let mut pos = data_len - 8;
-        let mut result = Vec::with_capacity(output_length);
+        // `output_length` is supplied by the caller (usually read from a header).  Use it as
+        // a hint only: reserve a small multiple of the input and let the vector grow if the
+        // stream really expands further, so a bogus length cannot drive a huge allocation.
+        let mut result = Vec::with_capacity(output_length.min(data_len.saturating_mul(8)));
 
         for _ in 0..output_length {
             let symbol = self.decode_symbol(&mut state, encoded_data, &mut pos)?;
